@@ -26,6 +26,16 @@ fn corpus() -> Vec<(Model, Vec<VarDecl>)> {
     out.push((build_model(OptimizationType::Max, Exp::Abs(b(var("x"))), vec![Constraint::new(Exp::Max(vec![var("x"), var("y")]), Comparison::LessOrEqual, num(3.0), "cap".into())], &dd), dd.clone()));
     out.push((build_model(OptimizationType::Min, Exp::Max(vec![var("x"), var("y"), num(1.0)]), vec![Constraint::new(Exp::Min(vec![var("x"), var("y")]), Comparison::GreaterOrEqual, num(-0.5), "".into())], &dd), dd.clone()));
     out.push((build_model(OptimizationType::Satisfy, num(0.0), vec![Constraint::new(Exp::Abs(b(sub(var("x"), var("y")))), Comparison::Equal, num(1.0), "c".into()), Constraint::new(var("x"), Comparison::LessOrEqual, num(1.0), "c".into()), Constraint::new(var("y"), Comparison::GreaterOrEqual, num(0.0), "c__2".into())], &dd), dd.clone()));
+    // a dominated operand with an infinite bound in front of two retained ones, in an exact context (big-M constants after pruning)
+    let dd = vec![d("y", VariableType::Real(f64::NEG_INFINITY, f64::INFINITY)), d("x", VariableType::Real(1.0, 5.0)), d("z", VariableType::Real(2.0, 6.0))];
+    out.push((build_model(OptimizationType::Max, Exp::Max(vec![var("y"), var("x"), var("z")]), vec![Constraint::new(var("y"), Comparison::LessOrEqual, num(0.0), "".into())], &dd), dd.clone()));
+    out.push((build_model(OptimizationType::Min, Exp::Min(vec![var("y"), var("x"), var("z")]), vec![Constraint::new(var("y"), Comparison::GreaterOrEqual, num(10.0), "".into())], &dd), dd.clone()));
+    // a user variable that carries the name and the type of an auxiliary the model needs
+    let dd = vec![d("a", VariableType::Boolean), d("b", VariableType::Boolean), d("y", VariableType::Boolean), d("$or_0", VariableType::Boolean)];
+    out.push((build_model(OptimizationType::Max, bin(BinOp::Add, var("y"), var("$or_0")), vec![Constraint::new(var("y"), Comparison::Equal, Exp::Or(vec![var("a"), var("b")]), "".into()),
+        Constraint::new(bin(BinOp::Add, var("$or_0"), var("a")), Comparison::LessOrEqual, num(1.0), "link".into())], &dd), dd.clone()));
+    let dd = vec![d("x", VariableType::Real(-3.0, 2.0)), d("$abs_0_positive", VariableType::Boolean)];
+    out.push((build_model(OptimizationType::Max, bin(BinOp::Sub, Exp::Abs(b(var("x"))), var("$abs_0_positive")), vec![Constraint::new(var("x"), Comparison::LessOrEqual, num(1.5), "".into())], &dd), dd.clone()));
     // missing bounds
     let dd = vec![d("x", VariableType::Real(f64::NEG_INFINITY, f64::INFINITY))];
     out.push((build_model(OptimizationType::Max, Exp::Abs(b(var("x"))), vec![Constraint::new(var("x"), Comparison::LessOrEqual, num(3.0), "".into())], &dd), dd.clone()));
